@@ -16,7 +16,7 @@ CHECKS = {
     "C01": ex("model-based stateful PBT (rapid): reference map model vs. every read path after every op",
               "Generated operation sequences under generated configurations are executed against sod and a reference model; every read path is compared after every step, absent ids are looked up twice, uuids are checked for freshness/stability, and the directory is compared with the model through an independent walker.",
               "DESIGN.md §4 C01"),
-    "C02": ex("model-based PBT: generated query chains + exhaustive-per-state search sweep vs. model predicate; metamorphic re-run with complemented index assignment; direct big-index property",
+    "C02": ex("model-based PBT: generated query chains + exhaustive-per-state search sweep vs. model predicate; metamorphic re-run with complemented index assignment; direct big-index property; sparsely encoded objects (omitempty, renamed members, omitted nil pointers)",
               "Every generated query (all operators, And/Or chains, indexed/unindexed/nested/through-nil paths, boundary and absent probes) and an automatic sweep over every stored value and its neighbours are compared as multisets with predicates evaluated on the model, after every op of a generated history; the same program is re-run with the index assignment complemented; a second property hammers one index with up to 200 keys.",
               "DESIGN.md §4 C02"),
     "C03": ex("model-based stateful PBT with tiny value domains: accept/reject iff oracle; plus a big-collection property (1000-1700 objects, generated deletion order) against a map model",
@@ -44,7 +44,7 @@ CHECKS = {
               "Every generated program (all entry points, all configurations, flusher running) is executed single-threaded under a lock monitor that flags re-entrant read acquisitions, self deadlocks and lock-order cycles deterministically, then concurrently with perturbation under a watchdog that declares a hang only when all workers sit in lock acquisitions on two samples.",
               "DESIGN.md §4 C09", "exploration",
               TRUST + " 'For every call path' is approximated dynamically: a nested acquisition on a path no generated program executes is missed (evidence lists the entry points executed)."),
-    "C10": ex("model-based stateful PBT under a harness-owned virtual clock: visibility after every op, deadline-based disk oracle through an independent walker, second-handle differential after flush/Close, collections sharing one Schema value, age rule (no accepted write older than timeout + 2 steps off disk, whatever calls arrive), restart-with-corruption-and-Repair op; plus generated readers-vs-flusher liveness runs on a scaled clock",
+    "C10": ex("model-based stateful PBT under a harness-owned virtual clock: visibility after every op, deadline-based disk oracle through an independent walker, second-handle differential after flush/Close, collections sharing one Schema value, age rule (no accepted write older than timeout + 2 steps off disk, whatever calls arrive), restart-with-corruption-and-Repair op; real-clock runs: async off/on back to back with thousands of writes pending, writers hammering their own objects under a constantly firing flusher (last accepted value must be on disk after Close); plus generated readers-vs-flusher liveness runs on a scaled clock",
               "time.Sleep of the working-tree copy is redirected to a virtual clock, so threshold/timeout driven flushes are stepped deterministically; liveness is checked as 'on disk by an explicit conservative virtual-time deadline'.",
               "DESIGN.md §4 C10", "exploration",
               TRUST + " Assumes the flusher measures time only through time.Sleep/After/Ticker."),
